@@ -26,7 +26,7 @@ claimed={
 m={"version":1,
  "setup_cmd":"cd /verif/coq && coq_makefile -f _CoqProject -o Makefile && make -j16",
  "hooks":{"guard":"verif","enable":"none needed: internal packages are reached with `go build -overlay` from /verif/harness/gotools (nothing is written under /repo, no build tag)","baseline_off_cmd":"cd /repo && go test -vet=off -count=1 ./...","source_commits":[],"add_only":True},
- "engines":[{"name":"vcheck","path":"harness/vcheck","serves_properties":sorted(claimed),"kind_free_text":"Coq 8.16 development (coq/, ~27k lines, no axioms) + Go translator/runner built into /repo's module with an overlay (harness/gotools) + Python correspondence driver and spec oracles (harness/vlib, harness/checks)"}],
+ "engines":[{"name":"vcheck","path":"harness/vcheck","serves_properties":sorted(claimed),"kind_free_text":"Coq 8.16 development (coq/, ~28k lines, no axioms) + Go translator/runner built into /repo's module with an overlay (harness/gotools) + Python correspondence driver and spec oracles (harness/vlib, harness/checks)"}],
  "checks":[], "not_applicable":[]}
 for p in props:
     pid=p['id']
